@@ -300,6 +300,32 @@ def expression_differential(report, tier, seed):
     return evals
 
 
+def _expression_differential_child(args):
+    tier, seed = args
+
+    class Rec:
+        def __init__(self):
+            self.out = []
+            self.bounded = self
+            self.known = {k["id"]: k for k in __import__("pyvc.report", fromlist=["load_known"]).load_known() if k.get("property") == "C06" and k.get("status") == "finding"}
+
+        def append(self, payload):
+            self.out.append(("bounded", payload))
+
+        def known_finding(self, fid):
+            return self.known.get(fid)
+
+        def hit_known(self, fid, what):
+            self.out.append(("known", (fid, what)))
+
+        def violation(self, oid, payload, found=True, note=""):
+            self.out.append(("violation", (oid, payload, found, note)))
+
+    rec = Rec()
+    expression_differential(rec, tier, seed)
+    return rec.out
+
+
 def _bits(v):
     import struct
 
@@ -502,13 +528,31 @@ def check(argv):
         if bad:
             report.violation(oid, dict(what=bad[:3], problem=key), True)
     report.functions.append("tensora.codegen._hoist_declarations.hoist_declarations")
-    expression_differential(report, tier, seed)
+    # compiled code is executed: run the differential in a child process so that a crash is an outcome
+    from pyvc.pool import robust_map
+
+    res = robust_map(_expression_differential_child, [(tier, seed)], procs=1, job_timeout=1800)[0]
+    if isinstance(res, dict) and res.get("crashed"):
+        report.violation("expr:process-crash", dict(what=f"executing compiled expression functions crashed the process: {res['reason']}"), True)
+    else:
+        for kind, payload in res:
+            if kind == "bounded":
+                report.bounded.append(payload)
+            elif kind == "known":
+                report.hit_known(*payload)
+            elif kind == "violation":
+                report.violation(*payload)
     rng = random.Random(seed)
     n_c = 10 if tier == "quick" else 120
     c_members = set(m.key for m in rng.sample(fam, min(n_c, len(fam))))
     t0 = time.time()
-    with mp.get_context("fork").Pool(16) as pool:
-        kres = pool.map(kernel_job, [(m, seed, m.key in c_members) for m in fam], chunksize=2)
+    kjobs = [(m, seed, m.key in c_members) for m in fam]
+    kres = []
+    for r, j in zip(robust_map(kernel_job, kjobs), kjobs):
+        if isinstance(r, dict) and r.get("crashed"):
+            kres.append(dict(key=j[0].key, evals=1, failures=[f"running the compiled kernel crashed the process: {r['reason']}"], status="crash", f8=False))
+        else:
+            kres.append(r)
     evals = sum(r["evals"] for r in kres)
     shown = 0
     for r in kres:
